@@ -116,6 +116,11 @@ let run (cases : case list) =
       let toks = split_ws op in
       bump (List.hd toks);
       let t = split_ws impl in
+      (* a scenario the driver runs as a whole: nothing of it is in the model; its verdict line is judged directly *)
+      if (match toks with "scenario" :: _ -> true | _ -> false) then begin
+        if !oracle_live && impl <> Printf.sprintf "scn=%s ok=1" (List.nth toks 1) then begin
+          report_oracle ci i (if List.nth toks 1 = "eintr" then "24" else "5") op ("obs=[" ^ impl ^ "]"); oracle_live := false end
+      end else
       let lop = parse_op toks t in
       if !agree then begin
         let before = List.length !st.l_log in
